@@ -77,5 +77,7 @@ I_C16quiet == (hi > 0 /\ Last.ev = "hfinal") =>
                  /\ \A q \in DOMAIN fib : q \in RibPrefixes(rib) \/ q = <<"d">>
                  /\ NoDup(Last.fib)
                  /\ \A g \in ToSet(Last.removed) : (\A r \in rib : r.f # g) /\ (\A q \in DOMAIN fib : g \notin fib[q])
+                 \* a face id names one face for the life of the daemon (teardown, queued packets and routes go by id): none handed out twice
+                 /\ Cardinality(ToSet(Last.removed)) = Len(Last.removed)
 I_C16safe == (hi > 0) => Last.ev # "bad"
 ====
